@@ -127,6 +127,32 @@ func wlRunCase(c *wlCase, backend string, rt node.RootType, st *wlStats, maxAcce
 		return out
 	}
 	defer ndbA.Close()
+	// every second case: a competing candidate for the same version is committed first (the proposal that will lose), so that r2
+	// is not the first root of its version (on the path-keyed backend it then lives under a pending sequence number until it
+	// is finalized), and the log of the still pending r2 is requested as well
+	withComp := st.cases.Add(1)%2 == 0
+	if withComp {
+		tc := mkvs.NewWithRoot(nil, ndbA, r1)
+		cerr := tc.Insert(ctx, []byte("zz-competitor"), []byte("c"))
+		for _, op := range c.Ops { // the same keys with other values / the opposite operation
+			if cerr != nil {
+				break
+			}
+			if op.A == "ins" {
+				cerr = tc.Insert(ctx, op.K, append([]byte("other-"), op.V...))
+			} else {
+				cerr = tc.Insert(ctx, op.K, []byte("kept"))
+			}
+		}
+		if cerr == nil {
+			_, _, cerr = tc.Commit(ctx, mkNs, 1)
+		}
+		tc.Close()
+		if cerr != nil {
+			add("error", "competing candidate: "+cerr.Error(), nil)
+			return out
+		}
+	}
 	// produce r2 by applying the batch on a tree opened at r1
 	t := mkvs.NewWithRoot(nil, ndbA, r1)
 	for _, op := range c.Ops {
@@ -151,6 +177,39 @@ func wlRunCase(c *wlCase, backend string, rt node.RootType, st *wlStats, maxAcce
 		return out
 	}
 	r2 := node.Root{Namespace: mkNs, Version: 1, Type: rt, Hash: h2}
+	if withComp && !r1.Hash.Equal(&h2) {
+		// the log of the pending root: a database may decline it, but what it serves must reproduce r2
+		if it, perr := ndbA.GetWriteLog(ctx, r1, r2); perr == nil {
+			var served writelog.WriteLog
+			var ierr error
+			for {
+				more, nerr := it.Next()
+				if nerr != nil || !more {
+					ierr = nerr
+					break
+				}
+				e, verr := it.Value()
+				if verr != nil {
+					ierr = verr
+					break
+				}
+				served = append(served, e)
+			}
+			if ierr == nil {
+				st.servedPending.Add(1)
+				t2 := mkvs.NewWithRoot(nil, ndbA, r1)
+				aerr := t2.ApplyWriteLog(ctx, writelog.NewStaticIterator(served))
+				var h hash.Hash
+				if aerr == nil {
+					_, h, aerr = t2.Commit(ctx, mkNs, 1, mkvs.NoPersist())
+				}
+				t2.Close()
+				if aerr != nil || !h.Equal(&h2) {
+					add("served-wrong", fmt.Sprintf("log served for the pending root (a competing candidate exists) %s applied at r1 gives %s (err %v), r2 is %s", wlString(served), h, aerr, h2), nil)
+				}
+			}
+		}
+	}
 	if err = ndbA.Finalize([]node.Root{r2}); err != nil {
 		add("error", "finalize r2: "+err.Error(), nil)
 		return out
@@ -316,9 +375,9 @@ func wlNoopOverwrite(c *wlCase) bool {
 }
 
 type wlStats struct {
-	served, notServed, logDrift, applies, accepted, rejected, already atomic.Int64
-	mu                                                                sync.Mutex
-	declines                                                          map[string]int // "<same root?>/<empty r2?>: error text" -> count
+	cases, servedPending, served, notServed, logDrift, applies, accepted, rejected, already atomic.Int64
+	mu                                                                                      sync.Mutex
+	declines                                                                                map[string]int // "<same root?>/<empty r2?>: error text" -> count
 }
 
 func (st *wlStats) decline(msg string, same, empty bool) {
@@ -419,7 +478,7 @@ func wlogReplay(args []string) int {
 	defer w.Close()
 	w.Write(mustJSON(map[string]any{
 		"cases": nCases, "classes": classes, "findings": findings, "samples": samples,
-		"served": st.served.Load(), "not_served": st.notServed.Load(), "declines": st.declines, "log_drift": st.logDrift.Load(),
+		"served": st.served.Load(), "served_pending": st.servedPending.Load(), "not_served": st.notServed.Load(), "declines": st.declines, "log_drift": st.logDrift.Load(),
 		"applies": st.applies.Load(), "expected_accept": st.accepted.Load(), "expected_reject": st.rejected.Load(), "expected_root_already_present": st.already.Load(),
 	}))
 	return 0
